@@ -222,6 +222,50 @@ func bucket(n int) int {
 	return b
 }
 
+// wellFormed checks the hypothesis of the theorems on the implementation's automaton: acyclic,
+// labels strictly increasing at every node, numWords = size of the right language.
+func wellFormed(dump []dawg.VerifNode) string {
+	state := make([]int, len(dump)) // 0 new, 1 on the path, 2 done
+	size := make([]int, len(dump))
+	var visit func(i int) string
+	visit = func(i int) string {
+		if state[i] == 1 {
+			return fmt.Sprintf("cycle through node %d", dump[i].ID)
+		}
+		if state[i] == 2 {
+			return ""
+		}
+		state[i] = 1
+		n := dump[i]
+		if len(n.Labels) != len(n.KidIdx) {
+			return fmt.Sprintf("node %d: %d labels, %d links", n.ID, len(n.Labels), len(n.KidIdx))
+		}
+		total := 0
+		if n.Final {
+			total = 1
+		}
+		for j, k := range n.KidIdx {
+			if j > 0 && n.Labels[j-1] >= n.Labels[j] {
+				return fmt.Sprintf("node %d: labels not strictly increasing", n.ID)
+			}
+			if msg := visit(k); msg != "" {
+				return msg
+			}
+			total += size[k]
+		}
+		if n.NumWords != total {
+			return fmt.Sprintf("node %d: numWords %d, right language has %d words", n.ID, n.NumWords, total)
+		}
+		size[i] = total
+		state[i] = 2
+		return ""
+	}
+	if len(dump) == 0 {
+		return "empty dump"
+	}
+	return visit(0)
+}
+
 func exec(line string) hx.Result {
 	specs, words := parseCase(line)
 	var res hx.Result
@@ -231,6 +275,9 @@ func exec(line string) hx.Result {
 		return res
 	}
 	before := d.VerifDump()
+	if msg := wellFormed(before); msg != "" {
+		res.Viol = append(res.Viol, hx.Fail("C13:dawg-wellformed", "the Dawg built by dawg.New is not well-formed: %s", msg))
+	}
 	ls := make([]live, len(specs))
 	srch := make([]dawg.Searcher, len(specs))
 	kinds := ""
